@@ -80,6 +80,33 @@ TOKENS = {
     'endbs':   'c\\',
     'brace':   '{}{0}',
 }
+# one representative of every str.splitlines() boundary class (and a bare
+# CR), inside a line and at its end; NUL; a character outside the BMP
+SEPARATORS = {'ff': '\x0c', 'vt': '\x0b', 'fs': '\x1c', 'gs': '\x1d',
+              'rs': '\x1e', 'nel': '\x85', 'ls': '\u2028', 'ps': '\u2029',
+              'cr': '\r'}
+for _k, _c in SEPARATORS.items():
+    TOKENS[_k + '_in'] = 'a' + _c + 'b'
+    TOKENS[_k + '_end'] = 'a' + _c
+TOKENS['nul'] = 'a\x00b'
+TOKENS['astral'] = 'a\U0001F600b'
+CHAR_TOKENS = ([k + '_in' for k in SEPARATORS] + [k + '_end' for k in SEPARATORS]
+               + ['nul', 'astral'])
+# big streams: '@line:N' = one line of N bytes (newline included),
+# '@lines:N' = N bytes of ten-byte lines; the pipe capacity is 65 536
+BIG_TOKENS = ['@line:70000', '@lines:70000', '@lines:65535', '@lines:65536',
+              '@lines:65537', '@line:65536']
+
+# the command itself: emit.sh ignores its arguments
+COMMANDS = [
+    'sh ./emit.sh',
+    'sh ./emit.sh "it\'s" \'"q"\'',
+    'sh ./emit.sh \'"""\' a\\\\b',
+    'sh ./emit.sh "\'\'\'" "%s %(x)s"',
+    'sh ./emit.sh \u00e9\u65e5\u672c',
+    'sh ./emit.sh # """ \\',
+]
+
 QUICK_TOKENS = ['plain', 'quotes', 'bslash', 'regex', 'uni', 'today',
                 'baddate', 'olddate', 'version', 'time', 'cwd', 'user',
                 'host', 'tmp', 'empty', 'trail']
@@ -98,6 +125,13 @@ FILE_KINDS = {
     'json':  ('o.json', b'{"a": [1, 2]}\n'),
     'latin': ('o.dat', b'caf\xe9 au lait\n'),
     'zero':  ('o.log', b''),
+    # Latin-1 bytes in files that are text by their extension
+    'latintxt': ('o.txt', b'r\xe9sum\xe9\n'),
+    'latincsv': ('o.csv', b'name,city\nZo\xeb,K\xf6ln\n'),
+    'latinlong': ('o.txt', b'Les \xe9l\xe8ves fran\xe7ais ont \xe9t\xe9 '
+                  b're\xe7us \xe0 la f\xeate de No\xebl.\n'),
+    'crlf': ('o.txt', b'a\r\nb\r\n'),
+    'nultxt': ('o.txt', b'a\x00b\nc\n'),
 }
 
 # where an output file is written: code -> (directory relative to the working
@@ -117,7 +151,67 @@ BYSTANDERS = [
     ('keep.txt', b'bystander text\n'),
     ('keep.bin', b'\x00\x01\xff'),
     ('sub/keep.csv', b'k,v\n1,2\n'),
+    ('.khidden', b'hidden\n'),
+    ('k sp \u00e9.txt', b'spaces and unicode in the name\n'),
+    ('kro.txt', b'read only\n'),
 ]
+# further bystanders made by build(): klink.txt -> keep.txt, khard.txt (hard
+# link to keep.txt), kempty/ (empty directory), lookup -> ../shared (symlink
+# to a directory outside the working directory holding SHARED files)
+SHARED = [('table.csv', b'id,v\n1,2\n'), ('notes.txt', b'shared notes\n')]
+BYSTANDER_NAMES = ([os.path.basename(r) for r, _ in BYSTANDERS]
+                   + ['klink.txt', 'khard.txt'] + [n for n, _ in SHARED])
+
+
+class Hang(BaseException):
+    """a gentest call or a generated script did not return in time"""
+
+
+def _kill_children():
+    """kill every descendant of this process (a hung command)"""
+    me = os.getpid()
+    kids = {}
+    for n in os.listdir('/proc'):
+        if not n.isdigit():
+            continue
+        try:
+            with open('/proc/%s/stat' % n) as f:
+                st = f.read()
+            ppid = int(st[st.rindex(')') + 2:].split()[1])
+        except (OSError, ValueError, IndexError):
+            continue
+        kids.setdefault(ppid, []).append(int(n))
+    todo = list(kids.get(me, []))
+    while todo:
+        pid = todo.pop()
+        todo.extend(kids.get(pid, []))
+        try:
+            os.kill(pid, 9)
+        except OSError:
+            pass
+
+
+@contextlib.contextmanager
+def deadline(seconds):
+    """raise Hang in the main thread after `seconds` (SIGALRM)"""
+    import signal
+
+    def on_alarm(signum, frame):
+        raise Hang()
+    try:
+        old = signal.signal(signal.SIGALRM, on_alarm)
+    except ValueError:          # not in the main thread: no limit
+        yield
+        return
+    signal.setitimer(signal.ITIMER_REAL, seconds)
+    try:
+        yield
+    finally:
+        signal.setitimer(signal.ITIMER_REAL, 0)
+        signal.signal(signal.SIGALRM, old)
+
+
+HANG_LIMIT = 20.0
 
 
 class FakeClockModule(object):
@@ -220,13 +314,17 @@ def _snap_into(out, walk_top, top):
     for d, dirs, files in os.walk(walk_top):
         dirs.sort()
         for n in dirs:
-            out[os.path.relpath(os.path.join(d, n), top) + '/'] = None
+            p = os.path.join(d, n)
+            out[os.path.relpath(p, top) + '/'] = (
+                ('link', os.readlink(p)) if os.path.islink(p) else None)
         for n in sorted(files):
             p = os.path.join(d, n)
             st = os.lstat(p)
             if stat.S_ISREG(st.st_mode):
                 with open(p, 'rb') as f:
                     h = hashlib.sha1(f.read()).hexdigest()
+            elif stat.S_ISLNK(st.st_mode):
+                h = 'link:' + os.readlink(p)
             else:
                 h = 'special'
             out[os.path.relpath(p, top)] = (h, st.st_size, st.st_mtime_ns,
@@ -286,9 +384,13 @@ class Harness(object):
         self.fail = os.path.join(root, 'fail')
         self.sib_dir = os.path.join(root, 'w_out')
         self.else_dir = os.path.join(root, 'else')
+        self.shared_dir = os.path.join(root, 'shared')
         for d in (self.box_dir, self.gtmp, self.tmp, self.fail,
-                  self.sib_dir, self.else_dir):
+                  self.sib_dir, self.else_dir, self.shared_dir):
             os.mkdir(d)
+        for n, content in SHARED:
+            with open(os.path.join(self.shared_dir, n), 'wb') as f:
+                f.write(content)
         self.start_cwd = os.getcwd()
         os.environ['TMPDIR'] = self.tmp
         os.environ['TDDA_FAIL_DIR'] = self.fail
@@ -369,10 +471,20 @@ class Harness(object):
                 .replace('{USER}', self.user).replace('{HOST}', self.host)
                 .replace('{HOME}', self.home))
 
+    def token_lines(self, tok):
+        if tok.startswith('@line:'):
+            return ['x' * (int(tok[6:]) - 1)]
+        if tok.startswith('@lines:'):
+            n = int(tok[7:])
+            lines = ['abcdefghi'] * (n // 10)
+            lines[-1] += 'y' * (n - 10 * (n // 10))
+            return lines
+        return [self.line(tok)]
+
     def text(self, toks, final_newline=True):
         if not toks:
             return b''
-        s = '\n'.join(self.line(t) for t in toks)
+        s = '\n'.join(l for t in toks for l in self.token_lines(t))
         if final_newline:
             s += '\n'
         return s.encode('utf-8')
@@ -440,12 +552,25 @@ class Harness(object):
                         rel = os.path.join(d, n)
                         if os.path.isfile(os.path.join(b.cwd, rel)) \
                                 and rel not in outputs \
-                                and not n.startswith(('d_', 'keep.', 'test_'))\
+                                and not n.startswith(('d_', 'keep.', 'test_',
+                                                      'k', '.k'))\
                                 and n != 'emit.sh':
                             os.unlink(os.path.join(b.cwd, rel))
+        for rel in [r for r, _ in BYSTANDERS] + ['klink.txt', 'khard.txt',
+                                                 'lookup']:
+            if os.path.lexists(os.path.join(b.cwd, rel)):
+                os.unlink(os.path.join(b.cwd, rel))
         for rel, content in BYSTANDERS:
             with open(os.path.join(b.cwd, rel), 'wb') as f:
                 f.write(content)
+        os.chmod(os.path.join(b.cwd, 'kro.txt'), 0o444)
+        os.symlink('keep.txt', os.path.join(b.cwd, 'klink.txt'))
+        os.link(os.path.join(b.cwd, 'keep.txt'),
+                os.path.join(b.cwd, 'khard.txt'))
+        os.symlink(os.path.join('..', 'shared'),
+                   os.path.join(b.cwd, 'lookup'))
+        if not os.path.isdir(os.path.join(b.cwd, 'kempty')):
+            os.mkdir(os.path.join(b.cwd, 'kempty'))
         for n, content in b.data.items():
             with open(os.path.join(b.cwd, n), 'wb') as f:
                 f.write(content)
@@ -485,19 +610,39 @@ class Harness(object):
             b.file_args = [absolute(r) for r in rels]
         elif spec == 'glob':
             b.file_args = sorted(set(pattern(r) for r in rels))
+        elif spec == 'globdir':
+            # a glob that matches the DIRECTORY holding the outputs
+            def dirpattern(r):
+                d = os.path.dirname(r)
+                if not d:
+                    return '.'
+                if d.startswith('..'):
+                    d = absolute(d)
+                h, t = os.path.split(d)
+                return os.path.join(h, t[0] + '?' + t[2:])
+            b.file_args = sorted(set(dirpattern(r) for r in rels))
         else:
             raise ValueError(spec)
         sc = case.get('script', 'rel')
+        b.command = COMMANDS[case.get('cmd', 0)]
+        stem = SCRIPT_STEM
+        if sc in ('auto', 'dash'):
+            # documented default: test_<sanitised command>.py
+            stem = ''.join(c if c.isalnum() else '_' for c in b.command)
         b.script_arg = {'rel': 'test_%s.py' % SCRIPT_STEM,
                         'abs': os.path.join(b.cwd, 'test_%s.py' % SCRIPT_STEM),
                         'bare': SCRIPT_STEM,
-                        'nopfx': '%s.py' % SCRIPT_STEM}[sc]
-        b.script = os.path.join(b.cwd, 'test_%s.py' % SCRIPT_STEM)
-        b.refdir = os.path.join(b.cwd, 'ref', SCRIPT_STEM)
+                        'nopfx': '%s.py' % SCRIPT_STEM,
+                        'auto': None, 'dash': '-'}[sc]
+        b.stem = stem
+        b.modname = 'test_%s' % stem
+        b.script = os.path.join(b.cwd, 'test_%s.py' % stem)
+        b.refdir = os.path.join(b.cwd, 'ref', stem)
         return b
 
     def snap(self, b):
-        return snapshot(b.cwd, (self.sib_dir, self.else_dir))
+        return snapshot(b.cwd, (self.sib_dir, self.else_dir,
+                                self.shared_dir))
 
     def expected_stdout(self, b, tmpdir):
         return b.data['d_out.dat'].replace(TMP_MARK.encode(),
@@ -520,22 +665,44 @@ class Harness(object):
         if settle:
             time.sleep(settle)
         out, err = io.StringIO(), io.StringIO()
-        res = {'exc': None, 'exit': None, 'tb': None}
+        res = {'exc': None, 'exit': None, 'tb': None, 'hang': False}
         with audited() as log:
             try:
                 with contextlib.redirect_stdout(out), \
-                        contextlib.redirect_stderr(err):
-                    self.gt.gentest(COMMAND, b.script_arg, list(b.file_args),
-                                    iterations=case.get('iters', 2),
-                                    no_stdout=bool(case.get('no_stdout')),
-                                    no_stderr=bool(case.get('no_stderr')),
-                                    non_zero_exit=bool(case.get('nonzero')))
+                        contextlib.redirect_stderr(err), \
+                        deadline(HANG_LIMIT):
+                    if case.get('entry') == 'cli':
+                        # the documented command line: tdda gentest [FLAGS]
+                        # 'command' [script [files]]
+                        args = list(case.get('flags') or [])
+                        if case.get('iters', 2) != 2:
+                            args += ['-n', str(case['iters'])]
+                        for k, fl in (('no_stdout', '-O'), ('no_stderr', '-E'),
+                                      ('nonzero', '-Z')):
+                            if case.get(k):
+                                args.append(fl)
+                        args.append(b.command)
+                        if b.script_arg is not None or b.file_args:
+                            args.append(b.script_arg or '-')
+                        args += list(b.file_args)
+                        self.gt.gentest_wrapper(args)
+                    else:
+                        self.gt.gentest(
+                            b.command, b.script_arg, list(b.file_args),
+                            iterations=case.get('iters', 2),
+                            no_stdout=bool(case.get('no_stdout')),
+                            no_stderr=bool(case.get('no_stderr')),
+                            non_zero_exit=bool(case.get('nonzero')))
             except SystemExit as e:
                 res['exit'] = e.code if e.code is not None else 0
+            except Hang:
+                res['hang'] = True
             except Exception as e:
                 import traceback
                 res['exc'] = e
                 res['tb'] = traceback.extract_tb(e.__traceback__)
+        if res['hang']:
+            _kill_children()
         res['audit'] = list(log)
         res['stdout'] = out.getvalue()
         res['stderr'] = err.getvalue()
@@ -549,32 +716,45 @@ class Harness(object):
             src = f.read()
         return compile(src, b.script, 'exec')
 
-    def run_script(self, b, code=None):
-        """Import the generated script afresh from its path and run it with
-        ReferenceTestCase.main in-process, from the user's environment.
+    def run_script(self, b, code=None, module=None):
+        """Run the generated script in-process through ReferenceTestCase.main.
+
+        module=None: import it afresh from its path, from the user's
+        environment (what `python test_x.py` does).  module=<a module returned
+        earlier in res['module']>: the SAME loaded module and class objects are
+        run again in the environment the first run left behind (a runner that
+        re-runs loaded tests, unittest discovery keeping modules loaded).
         Returns {'import_error', 'tests': {name: ok|fail|error}, 'other':
-        [...]} (other = class/module level errors)."""
-        self.reset()
-        os.chdir(b.cwd)
+        [...] (class/module level errors), 'hang', 'module'}."""
         res = {'import_error': None, 'tests': {}, 'other': [], 'ran': 0,
-               'exit': None, 'details': {}}
-        if code is None:
-            code = self.compile_script(b)
-        modname = 'test_%s' % SCRIPT_STEM
-        mod = types.ModuleType(modname)
-        mod.__file__ = b.script
-        sys.modules.pop(modname, None)
+               'exit': None, 'details': {}, 'hang': False, 'module': None}
+        modname = b.modname
         out, err = io.StringIO(), io.StringIO()
         RecRunner.result = None
+        names = []
+        if module is None:
+            self.reset()
+        else:
+            sys.argv[:] = self.base_argv
+            self.RT.regenerate.clear()
+        os.chdir(b.cwd)
         try:
             with contextlib.redirect_stdout(out), \
-                    contextlib.redirect_stderr(err):
-                try:
-                    exec(code, mod.__dict__)
-                except Exception as e:
-                    res['import_error'] = '%s: %s' % (type(e).__name__, e)
-                    return res
-                names = []
+                    contextlib.redirect_stderr(err), deadline(HANG_LIMIT):
+                if module is None:
+                    if code is None:
+                        code = self.compile_script(b)
+                    mod = types.ModuleType(modname)
+                    mod.__file__ = b.script
+                    sys.modules.pop(modname, None)
+                    try:
+                        exec(code, mod.__dict__)
+                    except Exception as e:
+                        res['import_error'] = '%s: %s' % (type(e).__name__, e)
+                        return res
+                else:
+                    mod = module
+                res['module'] = mod
                 for v in list(mod.__dict__.values()):
                     if isinstance(v, type) and issubclass(v, unittest.TestCase) \
                             and v.__module__ == modname:
@@ -584,12 +764,17 @@ class Harness(object):
                                   testRunner=RecRunner)
                 except SystemExit as e:
                     res['exit'] = e.code
+        except Hang:
+            res['hang'] = True
         finally:
             sys.modules.pop(modname, None)
-            self.reset()
+            if res['hang']:
+                _kill_children()
+            if module is None and not res.get('keep_env'):
+                pass
             os.chdir(b.cwd)
         r = RecRunner.result
-        if r is None:
+        if r is None or res['hang']:
             return res
         res['ran'] = r.testsRun
         bad = {}
@@ -608,13 +793,46 @@ class Harness(object):
     def run_subprocess(self, b):
         """`python test_x.py` from the user's environment (binds the
         in-process shortcut to the real invocation)."""
+        r = self.run_fresh_process(b)
+        return r['rc'], r['stderr']
+
+    def run_fresh_process(self, b):
+        """`python test_x.py -v` in a fresh process from the user's
+        environment; per-test results parsed from unittest's verbose report.
+        Same result shape as run_script."""
+        import re
         self.reset()
+        os.chdir(b.cwd)
         env = dict(self.base_env)
         env['PYTHONPATH'] = sys.path[0]
         env['PYTHONDONTWRITEBYTECODE'] = '1'
-        p = subprocess.run([sys.executable, b.script], cwd=b.cwd, env=env,
-                           capture_output=True, text=True, timeout=300)
-        return p.returncode, p.stderr[-600:]
+        res = {'import_error': None, 'tests': {}, 'other': [], 'ran': 0,
+               'exit': None, 'details': {}, 'hang': False, 'module': None}
+        try:
+            p = subprocess.run([sys.executable, b.script, '-v'], cwd=b.cwd,
+                               env=env, capture_output=True, text=True,
+                               errors='replace', timeout=120)
+        except subprocess.TimeoutExpired:
+            res['hang'] = True
+            res['rc'] = None
+            res['stderr'] = ''
+            return res
+        res['rc'] = p.returncode
+        res['stderr'] = p.stderr[-600:]
+        for m in re.finditer(r'^(test\w*) \([^)]*\)(?:\n.*?)? \.\.\. '
+                             r'(ok|FAIL|ERROR)', p.stderr, re.M):
+            res['tests'][m.group(1)] = {'ok': 'ok', 'FAIL': 'fail',
+                                        'ERROR': 'error'}[m.group(2)]
+        for m in re.finditer(r'^(?:ERROR|FAIL): (setUpClass|tearDownClass|'
+                             r'\w+) \(', p.stderr, re.M):
+            if m.group(1) in ('setUpClass', 'tearDownClass'):
+                res['other'].append(m.group(0))
+        m = re.search(r'^Ran (\d+) test', p.stderr, re.M)
+        if m:
+            res['ran'] = int(m.group(1))
+        elif p.returncode != 0:
+            res['import_error'] = p.stderr[-300:]
+        return res
 
     # ------------------------------------------------------------ mutation
     def write_data(self, b, name, content):
